@@ -238,6 +238,7 @@ class Ctx:
         self.disc = z3.Function("disc", U, z3.BitVecSort(64))
         self.consts = {}
         self.tups = {}
+        self.cf_map = {}
 
     def fresh(self, sort, hint="v"):
         self.n += 1
@@ -391,6 +392,10 @@ class Interp:
                 continue
             if p[0] == "variant":
                 variant = p[1]
+                # (Try::branch(x) as Continue).0 is, syntactically, (x as Ok/Some).0 – keeps provenance visible
+                if variant == "Continue" and z3.is_expr(v) and str(v) in self.ctx.cf_map:
+                    v, is_res = self.ctx.cf_map[str(v)]
+                    variant = "Ok" if is_res else "Some"
                 continue
             if p[0] == "field":
                 idx, ty = p[1], p[2]
@@ -746,6 +751,7 @@ class Interp:
             st["cf_src"] = st.get("cf_src", {})
             st["cf_src"][str(r)] = (src, is_result)
             self._cf_links.append((r, src, is_result))
+            c.cf_map[str(r)] = (src, is_result)
             return r
         if " as FromResidual<" in raw:
             r = c.fresh(U, "resid")
